@@ -118,6 +118,9 @@ IDENTS = ["a", "b", "c", "x", "y", "z", "t", "u", "col1", "tbl", "db", "n_1", "A
 FUNCS = ["f", "g", "count", "sum", "toString", "plus", "if_", "coalesce", "lower", "any", "allow"]
 SPECIAL_FUNCS = ["position", "dateDiff", "ltrim", "view", "date_add", "kql"]
 IMPLICIT_OK = IDENTS + ["KEY", "index", "View", "database", "TABLE", "sync"]
+# words parseImplicitAlias refuses (window frame words, INTERSECT) and keywords it does not accept
+IMPLICIT_REFUSED = ["rows", "Range", "GROUPS", "unbounded", "preceding", "following", "current",
+                    "intersect", "first", "final", "parallel"]
 BINOPS = ["+", "-", "*", "/", "%", "=", "==", "!=", "<>", "<", ">", "<=", ">=", "<=>", "AND", "OR",
           "and", "||", "DIV", "mod"]
 
@@ -218,7 +221,7 @@ class Gen:
         if a < 2 or (self.kwnames and a < 4):
             return e + ["AS", self.alias_after_as()]
         if a == 2 and not self.kwnames:
-            return e + [r.choice(IMPLICIT_OK)]
+            return e + [r.choice(IMPLICIT_OK) if not r.chance(1, 8) else r.choice(IMPLICIT_REFUSED)]
         return e
 
     def exprlist(self, depth, col=False):
